@@ -64,6 +64,17 @@ func GenUniverse(r *vh.Rand, tag string) (*Universe, string) {
 			u.Nodes[i].Refs = []int{}
 			u.Nodes[i].Shape = []int{}
 		}
+		// some messages whose references are all single messages are oneof wrappers
+		n := &u.Nodes[i]
+		if n.Kind == KMsg && len(n.Refs) > 0 && r.Chance(20) {
+			all := true
+			for k, j := range n.Refs {
+				if n.Shape[k] != FSingle || u.Nodes[j].Kind != KMsg {
+					all = false
+				}
+			}
+			n.Wrapper = all
+		}
 	}
 	return u, "random"
 }
@@ -74,6 +85,9 @@ func WithBad(r *vh.Rand, u *Universe) {
 	ms := MsgNodes(u)
 	for n := r.Range(1, 2); n > 0 && len(ms) > 0; n-- {
 		i := vh.Pick(r, ms)
+		if u.Nodes[i].Wrapper {
+			continue // an unsupported member would not be a oneof wrapper any more
+		}
 		u.Nodes[i].Bad = r.Range(1, len(u.Nodes[i].Refs)+1)
 	}
 }
@@ -109,6 +123,7 @@ func GenRich(r *vh.Rand, tag string) (*Universe, string) {
 			}
 		}
 		switch {
+		case n.Wrapper || n.Bad > 0:
 		case allSingleMsg && r.Chance(25):
 			n.Wrapper = true
 		case len(singles) > 0 && r.Chance(50):
